@@ -245,3 +245,36 @@ Proof. intros W H Hk. unfold download. rewrite (get_live_kid p k o W H). destruc
 
 Lemma PWF_with_cursor p : PWF p -> PWF (with_cursor p (length (p_log p))).
 Proof. intros W. destruct W. constructor; simpl; auto. Qed.
+
+(* ------------------------------------------------------------------ inversion of successful calls *)
+Lemma info_path_none_free p q : PWF p -> info_path p q = None ->
+  forall k o, nth_error (p_heap p) k = Some o -> o_exists o = true -> o_path o <> q.
+Proof.
+  intros W H k o Hn Hl Hp. pose proof (info_path_live p k o W Hn Hl) as Hi. rewrite Hp in Hi. congruence.
+Qed.
+
+Lemma create_inv p q d pv i : PWF p -> create p q d = (pv, Ok i) ->
+  let o := new_obj p q KFile d in
+  i = info_of o /\ p_heap pv = p_heap p ++ [o] /\ p_log pv = p_log p ++ [create_ev o] /\
+  p_cursor pv = p_cursor p /\ p_cfg pv = p_cfg p /\ PWF pv.
+Proof.
+  intros W H o. unfold create in H. destruct (has_forbidden (p_cfg p) q); [discriminate|].
+  destruct (info_path p q) as [j|] eqn:Ei; [discriminate|]. destruct (verify_parent p q); [discriminate|].
+  destruct (alloc_spec p q KFile d W (info_path_none_free p q W Ei)) as (p' & A & B & C & D & F & G).
+  rewrite A in H. injection H as <- <-. repeat (split; [first [reflexivity|assumption]|]). exact G.
+Qed.
+
+Lemma upload_inv p k d pv i : PWF p -> upload p (kid_of k) d = (pv, Ok i) ->
+  exists o, nth_error (p_heap p) k = Some o /\ o_exists o = true /\ o_kind o = KFile /\
+    i = info_of (set_data o d) /\ p_heap pv = hset (p_heap p) k (set_data o d) /\
+    p_log pv = p_log p ++ [snapshot EvUpdate (set_data o d) None] /\ p_cursor pv = p_cursor p /\ p_cfg pv = p_cfg p /\ PWF pv.
+Proof.
+  intros W H. destruct (nth_error (p_heap p) k) as [o|] eqn:En.
+  - destruct (o_exists o) eqn:El.
+    + destruct (o_kind o) eqn:Ek.
+      * destruct (upload_spec p k o d W En El Ek) as (p' & A & B1 & B2 & B3 & B4 & B5). rewrite A in H. injection H as <- <-. exists o.
+        repeat (split; [first [reflexivity|assumption]|]). exact B5.
+      * unfold upload in H. rewrite (get_live_kid p k o W En), El, Ek in H. discriminate.
+    + rewrite (upload_dead p k o d W En El) in H. discriminate.
+  - unfold upload, get_live in H. rewrite (get_kid_none p k W En) in H. discriminate.
+Qed.
